@@ -331,7 +331,11 @@ def gen_iface(rng, max_blocks=4):
         j = rng.randrange(nb - 1)
         i = rng.randrange(j + 1, nb)
         bj, bi = I.blocks[j], I.blocks[i]
-        bj.types[0][1].append(("back", ("t", bi.bid, bi.types[0][0])))
+        # the later block gets a leaf type (builtin members only) for the earlier one to
+        # use: the documents need each other, the types are not recursive
+        leaf = "L%d" % bi.bid
+        bi.types.append((leaf, [("v", ("b", rng.choice(BUILTINS)))]))
+        bj.types[0][1].append(("back", ("t", bi.bid, leaf)))
         bj.deps.add(i)
     nops = rng.randrange(1, 3)
     for o in range(nops):
@@ -679,6 +683,352 @@ def build_graph_layout(rng, kinds, edges, order="safe", style=None, dirs=None, s
     if len(set(dirs)) > 1:
         L.quirks.add(KEY_RELBASE)
     L.desc = "graph kinds=%s edges=%s order=%s style=%s" % (
-        "".join(kinds), ",".join("%d%s%d" % (i, k[1:], j) for (i, j), k in sorted(edges.items())), order, style)
+        "".join(kinds), ",".join("%d%s%d" % (i, {"wimp": "W", "ximp": "I", "xinc": "C"}[k], j) for (i, j), k in sorted(edges.items())), order, style)
     L.shape = {"n": n, "kinds": "".join(kinds), "edges": len(edges), "cycle": w_cycle(kinds, edges)}
+    return L
+
+
+def shadowed_import(kinds, edges, ns_of):
+    """A WSDL document's inline schema imports (with a location) a namespace
+    that another member of the same schema collection already has: suds then
+    uses that member and ignores the location (Import.__locate).  XSD calls
+    schemaLocation a hint, so this is not counted as a defect; such graphs
+    are left out."""
+    for (i, j), k in edges.items():
+        if k == "ximp" and kinds[i] == "W":
+            for (a, b), k2 in edges.items():
+                if a == i and k2 == "wimp" and kinds[b] == "X" and b != j and ns_of(b) == ns_of(j) \
+                        and ns_of(j) != ns_of(i):
+                    return True
+            # the target itself is also a member of the collection: located, same document
+    return False
+
+
+def graph_ns(n, edges):
+    grp = list(range(n))
+
+    def find(i):
+        while grp[i] != i:
+            i = grp[i]
+        return i
+    for (i, j), k in sorted(edges.items()):
+        if k == "xinc":
+            a, b = find(i), find(j)
+            if a != b:
+                grp[max(a, b)] = min(a, b)
+    return find
+
+
+def graph_ok(kinds, edges):
+    """Graphs the check generates: see shadowed_import; and a WSDL import
+    cycle through a document that also imports itself is left out (the types
+    list of such a document doubles on every pass: the load terminates but
+    takes time exponential in the number of imports)."""
+    if w_cycle(kinds, edges) and any(i == j and kinds[i] == "W" for (i, j) in edges):
+        return False
+    find = graph_ns(len(kinds), edges)
+    if shadowed_import(kinds, edges, find):
+        return False
+    return True
+
+
+# ---- partitions of a generated interface -----------------------------------
+
+DIRS = ["/a/", "/a/sub/", "/b/"]
+
+
+def gen_partition(rng, I, max_docs=6):
+    """Split interface I into 1..max_docs documents.  Returns a Layout or
+    None (when the draw needs more documents than allowed).
+
+    WSDL units: service (root), binding, portType, messages form a chain of
+    wsdl:import; schema blocks are inline in the messages' document (or in a
+    types-only WSDL it imports) or in schema documents reached by
+    wsdl:import, xsd:import or xsd:include.  Every document refers directly
+    to the documents that define what it uses; extra references add
+    diamonds, cycles and self-references."""
+    L = Layout("partition")
+    style = rng.choice(["abs", "rel", "mixed", "mixed"])
+    nsdecl = ns_decls(I)
+    one_dir = rng.random() < 0.4
+    counter = [0]
+
+    def new_url(ext):
+        k = counter[0]
+        counter[0] += 1
+        d = DIRS[0] if one_dir else rng.choice(DIRS)
+        return HOST + d + "p%d.%s" % (k, ext)
+
+    # --- WSDL chain
+    wdocs = [WDoc(new_url("wsdl"))]
+    unit_doc = {"SVC": 0}
+    prev = 0
+    for unit in ("BIND", "PT", "MSG"):
+        if rng.random() < 0.5:
+            wdocs.append(WDoc(new_url("wsdl")))
+            prev = len(wdocs) - 1
+        unit_doc[unit] = prev
+    dm = unit_doc["MSG"]
+    # --- blocks: schema document or inline
+    is_x = {b.bid: rng.random() < 0.6 for b in I.blocks}
+    changed = True
+    while changed:
+        changed = False
+        for b in I.blocks:
+            if is_x[b.bid]:
+                for j in b.deps:
+                    if not is_x[j]:
+                        is_x[j] = True
+                        changed = True
+    inline_blocks = [b for b in I.blocks if not is_x[b.bid]]
+    holder = None
+    if inline_blocks and rng.random() < 0.35:
+        wdocs.append(WDoc(new_url("wsdl")))
+        holder = len(wdocs) - 1
+    di = holder if holder is not None else dm
+    # --- schema documents
+    xdocs = []          # [url, SchemaEl, [blocks]]
+    block_x = {}
+    for b in I.blocks:
+        if not is_x[b.bid]:
+            continue
+        mates = [k for k, x in enumerate(xdocs) if x[2][0].ns == b.ns and x[1].tns is not None]
+        if mates and rng.random() < 0.3:
+            k = rng.choice(mates)
+            xdocs[k][2].append(b)
+            block_x[b.bid] = k
+        else:
+            xdocs.append([new_url("xsd"), SchemaEl(I.nss[b.ns], I.forms[b.ns]), [b]])
+            block_x[b.bid] = len(xdocs) - 1
+    if len(wdocs) + len(xdocs) > max_docs:
+        return None
+
+    def st():
+        return style if style != "mixed" else rng.choice(["abs", "rel", "dotrel", "rootrel", "rel"])
+
+    # --- references between schema documents
+    dependents = {k: set() for k in range(len(xdocs))}
+    for k, (url, s, blks) in enumerate(xdocs):
+        targets = []
+        for b in blks:
+            for j in sorted(b.deps):
+                t = block_x[j]
+                if t != k and t not in targets:
+                    targets.append(t)
+        rng.shuffle(targets)
+        for t in targets:
+            dependents[t].add(k)
+            if xdocs[t][2][0].ns == blks[0].ns:
+                s.refs.append(("include", (url, xdocs[t][0])))
+            else:
+                s.refs.append(("import", I.nss[xdocs[t][2][0].ns], (url, xdocs[t][0])))
+    # chameleon: a schema document that is only included and refers to no other type
+    for k, (url, s, blks) in enumerate(xdocs):
+        only_included = dependents[k] and all(xdocs[d][2][0].ns == blks[0].ns for d in dependents[k])
+        plain = all(t[0] == "b" for b in blks for _, fs in (b.types + b.elems) for _, t in fs)
+        if only_included and plain and not s.refs and rng.random() < 0.5:
+            s.tns = None
+            L.shape["chameleon"] = True
+    # --- inline schemas (in document di)
+    inline = []
+    if inline_blocks:
+        groups = []
+        for b in inline_blocks:
+            g = [x for x in groups if x[0].ns == b.ns]
+            if g and rng.random() < 0.6:
+                g[0].append(b)
+            else:
+                groups.append([b])
+        for g in groups:
+            s = SchemaEl(I.nss[g[0].ns], I.forms[g[0].ns])
+            seen = []
+            for b in g:
+                for j in sorted(b.deps):
+                    if is_x[j]:
+                        t = block_x[j]
+                        if ("x", t) in seen:
+                            continue
+                        seen.append(("x", t))
+                        dependents[t].add("inline")
+                        if xdocs[t][2][0].ns == g[0].ns and xdocs[t][1].tns is not None or \
+                                xdocs[t][1].tns is None:
+                            s.refs.append(("include", (wdocs[di].url, xdocs[t][0])))
+                        else:
+                            s.refs.append(("import", I.nss[xdocs[t][2][0].ns], (wdocs[di].url, xdocs[t][0])))
+                    else:
+                        ons = I.blocks[j].ns
+                        if ons != g[0].ns and ("n", ons) not in seen:
+                            seen.append(("n", ons))
+                            s.refs.append(("import", I.nss[ons], None))
+            s.body = "".join(render_block(I, b) for b in g)
+            inline.append((s, g))
+    for k, (url, s, blks) in enumerate(xdocs):
+        s.body = "".join(render_block(I, b) for b in blks)
+    # --- bring in the schema documents nobody depends on (and some others: diamonds)
+    wimp_x = {}          # wdoc index -> [xdoc index]
+    glue = []
+    inline_ns = set(s.tns for s, _ in inline)
+    def x_reached(linked):
+        seen, todo = set(linked), list(linked)
+        while todo:
+            a = todo.pop()
+            for t, ds in dependents.items():
+                if a in ds and t not in seen:
+                    seen.add(t)
+                    todo.append(t)
+        return seen
+
+    linked = set(t for t, ds in dependents.items() if "inline" in ds)
+    to_link = []
+    for k, (url, s, blks) in enumerate(xdocs):
+        if s.tns is not None and (not dependents[k] or rng.random() < 0.25):
+            to_link.append(k)
+            linked.add(k)
+    while True:
+        missing = [k for k in range(len(xdocs)) if k not in x_reached(linked) and xdocs[k][1].tns is not None]
+        if not missing:
+            break
+        k = rng.choice(missing)
+        to_link.append(k)
+        linked.add(k)
+    for k in to_link:
+        url, s, blks = xdocs[k]
+        how = rng.choice(["wimp", "ximp", "xinc"])
+        if how == "wimp":
+            # a namespace-only located import of the same namespace elsewhere would shadow it
+            wimp_x.setdefault(rng.choice([dm, di]) if holder is None or rng.random() < 0.5 else dm, []).append(k)
+        elif how == "ximp":
+            hosts = [s2 for s2, _ in inline if s2.tns != s.tns]
+            if hosts:
+                h = rng.choice(hosts)
+            else:
+                h = SchemaEl("urn:c12:glue%d" % len(glue), "qualified")
+                glue.append(h)
+            h.refs.append(("import", s.tns, (wdocs[di].url, url)))
+        else:
+            hosts = [s2 for s2, _ in inline if s2.tns == s.tns]
+            if hosts:
+                h = rng.choice(hosts)
+            else:
+                h = SchemaEl(s.tns, s.form)
+                glue.append(h)
+            h.refs.append(("include", (wdocs[di].url, url)))
+    # shadowing (see shadowed_import): a collection member of namespace N next to a
+    # located import of N from another namespace
+    for w, ks in wimp_x.items():
+        if w == di:
+            located = set()
+            for s2 in [s for s, _ in inline] + glue:
+                for r in s2.refs:
+                    if r[0] == "import" and r[2] is not None and r[1] != s2.tns:
+                        located.add(r[1])
+            if any(xdocs[k][1].tns in located for k in ks):
+                return None
+            if any(xdocs[k][1].tns in inline_ns | set(g.tns for g in glue) for k in ks):
+                pass
+    schemas = [s for s, _ in inline] + glue
+    rng.shuffle(schemas)
+    if schemas:
+        if len(schemas) > 1 and rng.random() < 0.2:
+            wdocs[di].types.append(schemas[:1])
+            wdocs[di].types.append(schemas[1:])
+        else:
+            wdocs[di].types.append(schemas)
+    # --- wsdl:import chain and extras
+    wimports = {i: [] for i in range(len(wdocs))}     # index -> [("W", idx) | ("X", idx)]
+    order = []
+    for u in ("SVC", "BIND", "PT", "MSG"):
+        if unit_doc[u] not in order:
+            order.append(unit_doc[u])
+    for a, b in zip(order, order[1:]):
+        wimports[a].append(("W", b))
+    if holder is not None:
+        wimports[dm].append(("W", holder))
+    # diamonds: an upstream document also imports a document further down
+    for a in range(len(order)):
+        for b in range(a + 2, len(order)):
+            if rng.random() < 0.3:
+                wimports[order[a]].append(("W", order[b]))
+    for w, ks in wimp_x.items():
+        for k in ks:
+            wimports[w].append(("X", k))
+    if xdocs and rng.random() < 0.2:
+        k = rng.randrange(len(xdocs))
+        if xdocs[k][1].tns is not None:
+            w = rng.choice(order)
+            if ("X", k) not in wimports[w] and not (w == di and any(
+                    r[0] == "import" and r[2] is not None and r[1] == xdocs[k][1].tns
+                    for s2 in schemas for r in s2.refs if r[1] != s2.tns)):
+                wimports[w].append(("X", k))
+                wimp_x.setdefault(w, []).append(k)
+    # a document importing itself
+    if rng.random() < 0.15:
+        w = rng.randrange(len(wdocs))
+        wimports[w].append(("W", w))
+        L.shape["self_wimp"] = True
+    # safe order: schema documents first (see KEY_FOREIGN)
+    for w in wimports:
+        rng.shuffle(wimports[w])
+        wimports[w].sort(key=lambda e: e[0] != "X")
+    # --- extra references between schema documents: cycles and self-references
+    for k, (url, s, blks) in enumerate(xdocs):
+        if s.tns is None:
+            continue
+        for d in sorted(x for x in dependents[k] if x != "inline"):
+            if rng.random() < 0.3 and xdocs[d][1].tns is not None:
+                if xdocs[d][1].tns == s.tns:
+                    s.refs.append(("include", (url, xdocs[d][0])))
+                else:
+                    s.refs.append(("import", xdocs[d][1].tns, (url, xdocs[d][0])))
+                L.shape["xsd_cycle"] = True
+        if rng.random() < 0.1:
+            s.refs.append(rng.choice([("include", (url, url)), ("import", s.tns, (url, url))]))
+            L.shape["xsd_self"] = True
+    # --- which references may be written relative (the base suds uses must be
+    #     the URL of the document that contains the reference)
+    abs_only = set()
+    for w, ks in wimp_x.items():
+        for k in ks:
+            if posixpath.dirname(wdocs[w].url) != posixpath.dirname(xdocs[k][0]):
+                abs_only.add(xdocs[k][0])
+
+    def fix_refs(s, own):
+        out = []
+        for r in s.refs:
+            pair = r[-1]
+            if pair is None:
+                out.append(r)
+                continue
+            src_url, dst = pair
+            stl = "abs" if own in abs_only else st()
+            out.append(r[:-1] + (location(rng, own, dst, stl),))
+        s.refs = out
+
+    for url, s, blks in xdocs:
+        fix_refs(s, url)
+    for s in schemas:
+        fix_refs(s, wdocs[di].url)
+    for i, d in enumerate(wdocs):
+        for kind, t in wimports[i]:
+            dst = wdocs[t].url if kind == "W" else xdocs[t][0]
+            d.imports.append(location(rng, d.url, dst, st()))
+    # --- WSDL bodies
+    wdocs[unit_doc["MSG"]].body.append(msg_xml(I, I.ops))
+    wdocs[unit_doc["PT"]].body.append(pt_xml(I.ops))
+    wdocs[unit_doc["BIND"]].body.append(bind_xml(I.ops))
+    wdocs[0].body.append(SVC_XML)
+    for d in wdocs:
+        L.docs[d.url] = d.render(nsdecl)
+    for url, s, blks in xdocs:
+        L.docs[url] = XDoc(url, s).render(nsdecl)
+    L.root = wdocs[0].url
+    L.single = single_document(I)
+    p = rng.choice([0.0, 0.3, 0.3, 1.0])
+    for u in L.docs:
+        if rng.random() < p:
+            L.in_store.add(u)
+    L.shape.update({"n": len(L.docs), "wdocs": len(wdocs), "xdocs": len(xdocs), "style": style,
+                    "holder": holder is not None, "one_dir": one_dir,
+                    "wimp_x": sum(len(v) for v in wimp_x.values())})
+    L.desc = "partition %d docs (%d wsdl, %d xsd) style=%s" % (len(L.docs), len(wdocs), len(xdocs), style)
     return L
